@@ -168,3 +168,66 @@ func TestBuildRoundTrip(t *testing.T) {
 		}
 	}
 }
+
+// The exact charstring reader agrees with x/image on every glyph without fractional operands,
+// and differs by less than x/image's rounding on the others.
+func TestCFFAgainstXImage(t *testing.T) {
+	for _, fn := range []string{"EBGaramond12-Regular.otf", "Dynalight-Regular.otf"} {
+		b, err := os.ReadFile("/repo/resources/" + fn)
+		if err != nil {
+			t.Skip(err)
+		}
+		f, err := Open(b)
+		if err != nil {
+			t.Fatal(err)
+		}
+		c, err := OpenCFF(f.Dir.Tables["CFF "])
+		if err != nil {
+			t.Fatal(err)
+		}
+		if len(c.CharStrings) != f.N {
+			t.Fatalf("%d charstrings, %d glyphs", len(c.CharStrings), f.N)
+		}
+		exact, frac, unsupported, nonEmpty := 0, 0, 0, 0
+		worst := 0.0
+		for g := 0; g < f.N; g++ {
+			a, err := f.Outline(g)
+			if err != nil {
+				t.Fatalf("x/image glyph %d: %v", g, err)
+			}
+			e, fr, err := c.Outline(g)
+			if err != nil {
+				if _, ok := err.(*ErrUnsupported); ok {
+					unsupported++
+					continue
+				}
+				t.Fatalf("%s glyph %d: %v", fn, g, err)
+			}
+			if len(e) > 0 {
+				nonEmpty++
+			}
+			if !fr {
+				if FmtOutline(a) != FmtOutline(e) {
+					t.Fatalf("%s glyph %d (no fractional operands):\n%s\n%s", fn, g, FmtOutline(a), FmtOutline(e))
+				}
+				exact++
+				continue
+			}
+			frac++
+			if len(a) != len(e) {
+				continue // a residual closing line of less than a unit shifts the indices
+			}
+			for i := range a {
+				for k := 0; k < 3; k++ {
+					for cc := 0; cc < 2; cc++ {
+						worst = math.Max(worst, math.Abs(a[i].P[k][cc]-e[i].P[k][cc]))
+					}
+				}
+			}
+		}
+		t.Logf("%s: %d glyphs (%d with contours): %d equal to x/image, %d with fractional operands (informational: worst index-wise difference %.3f units, x/image rounds and accumulates), %d unsupported", fn, f.N, nonEmpty, exact, frac, worst, unsupported)
+		if exact < f.N/2 || unsupported > 0 {
+			t.Fatal("too few glyphs compared")
+		}
+	}
+}
